@@ -15,7 +15,7 @@ pub const OP_NAMES: &[&str] = &[
     "push", "insert", "remove", "swap_remove", "pop", "pop_if", "truncate", "clear", "resize", "resize_with", "ext_slice", "ext_within", "append",
     "reserve", "reserve_exact", "extend", "retain", "dedup_key", "dedup_by", "dedup", "drain", "extract_if", "shrink_to_fit", "shrink_to",
     "new", "drop", "split_off", "merge_back", "into_box", "into_iter", "map", "map_in_place", "splice", "noise", "finalize", "helper",
-    "split_at", "partition", "convert", "part_op", "claim_ops", "flatten", "clone", "try_with",
+    "split_at", "partition", "convert", "part_op", "claim_ops", "flatten", "clone", "try_with", "split_spare",
 ];
 
 pub const K_PUSH: u16 = 0;
@@ -62,6 +62,7 @@ pub const K_CLAIM_OPS: u16 = 40;
 pub const K_FLATTEN: u16 = 41;
 pub const K_CLONE: u16 = 42;
 pub const K_TRY_WITH: u16 = 43;
+pub const K_SPLIT_SPARE: u16 = 44;
 
 pub const LAST_COMMON: u16 = K_SHRINK_TO;
 
